@@ -9,7 +9,7 @@ from harness.memrun import TICK
 ID = "C06"
 RUN_MODULE = "Model.Lock Run.C06"
 EXPLAIN = "explain"
-RULE = ("2-4 real asyncio tasks entering sections guarded by cache.lock / @cache.locked on a coroutine function (constant key, or a key template over the arguments with positional and keyword call forms) / @cache.locked on an async generator / backend.lock on 1-2 keys (the second key lives on a second backend the facade routes to by prefix), lock ttl 1 / 1.5 / 2 s (spelled as float / int / timedelta / string through the facade), section "
+RULE = ("2-4 real asyncio tasks entering sections guarded by cache.lock / @cache.locked on a coroutine function (constant key, or a key template over the arguments with positional and keyword call forms) / @cache.locked on an async generator / backend.lock on 1-2 keys (the second key lives on a second backend the facade routes to by prefix; in one case out of five the facade has no default backend at all), lock ttl 1 / 1.5 / 2 s (spelled as float / int / timedelta / string through the facade), section "
         "durations 0-3 x ttl (some overstay; one body in five ends with an exception), wait=True (check_interval 0 or 0.125 s) and wait=False, plus unlock calls with a foreign token; "
         "every set_lock / unlock / ping of the Memory instance is gated, the schedule (which parked task runs next, when the clock advances to "
         "the next timer, which designated task gets cancelled) is a seeded list of choices - all schedules of length <= 7 for two tasks in the "
@@ -23,6 +23,12 @@ EXHAUSTIVE = {"quick": False, "thorough": True}
 
 
 KEYNAME = {"L": "L", "M": "p:M"}      # M is kept on a second backend, reached through the facade by its prefix
+
+
+def _keyname(case):
+    """in one case out of five the facade has no default backend at all (both are registered under a prefix): under contention the
+    facade's liveness probe then finds no backend and the taker is refused with NotConfiguredError - it must still never enter"""
+    return {"L": "l:L", "M": "p:M"} if len(case["schedule"]) > 20 and case["schedule"][0] % 5 == 4 else KEYNAME
 
 
 class Boom(Exception):
@@ -61,7 +67,9 @@ def run_impl(case):
             from cashews import Cache
             from cashews.exceptions import LockedError
             cache = Cache()
-            mem = cache.setup("mem://?size=100000&check_interval=" + ("0.25" if case["purge"] else "0") + case.get("conf", ""))
+            keyname = _keyname(case)
+            mem = cache.setup("mem://?size=100000&check_interval=" + ("0.25" if case["purge"] else "0") + case.get("conf", ""),
+                              **({"prefix": "l:"} if keyname["L"] != "L" else {}))
             mem2 = cache.setup("mem://?size=100000&check_interval=0", prefix="p:")      # keys under 'p:' are routed to a second backend
             await cache.init()
             names = {f"T{i}": i for i in range(len(case["tasks"]))}
@@ -102,7 +110,7 @@ def run_impl(case):
                 from harness.props.c02 import ttl_py
                 ttl = ttl_py(spec.get("spell", "float"), spec["ttl"]) if spec["via"] != "backend" else spec["ttl"] * TICK     # the facade accepts every TTL spelling
 
-                key = KEYNAME[spec["key"]]
+                key = keyname[spec["key"]]
 
                 async def section():
                     events.append([key, "in", i, 0, True, drv.tick()])        # the guarded body starts ...
@@ -144,7 +152,7 @@ def run_impl(case):
 
             async def intruder():
                 await asyncio.sleep(2 * TICK)
-                for k in ("L", "p:M"):
+                for k in (keyname["L"], "p:M"):
                     await (mem2 if k.startswith("p:") else mem).unlock(k, "intruder-token")
             ts = []
             for i, spec in enumerate(case["tasks"]):
@@ -166,7 +174,7 @@ def run_impl(case):
 
 def to_coq(case, obs):
     traces = []
-    for key in ("L", "p:M"):
+    for key in (_keyname(case)["L"], "p:M"):
         evs = [e for e in obs["events"] if e[0] == key]
         tr, now = [], 0
         for key_, kind, who, ttl, r, t in evs:
